@@ -607,21 +607,26 @@ S(id='omp_distance_loop_present', props=['C02'], kind='order', files=['lib/src/s
 
 def _profile_shapes(tier):
     out = []
-    rows = [1, 2]
-    lbs = [2] if tier == 'quick' else [2, 3]
-    groups = [(2, 1), (2, 2)] if tier == 'quick' else [(2, 1), (3, 1), (2, 2), (3, 2)]
-    psets = [0, 2] if tier == 'quick' else [0, 1, 2]
-    for ka, kb in groups:
-        for r in rows:
-            for lb in lbs:
+    def add(ka, kb, r, lb, sb, eb, ps, ins):
+        out.append(dict(name='ka%d_kb%d_rows%d_lb%d_sb%d_eb%d_p%d_in%d' % (ka, kb, r, lb, sb, eb, ps, ins),
+                        defs=dict(KV_KA=ka, KV_KB=kb, KV_ROWS=r, KV_LB=lb, KV_SB=sb, KV_EB=eb, KV_PSET=ps, KV_IN=ins)))
+    if tier == 'quick':
+        # ~100 s each: one rectangle per start/end-of-b case for the seq-profile kernel, two for profile-profile
+        for sb, eb, ins in ((0, 2, 0), (1, 2, 1), (0, 1, 2)):
+            add(2, 1, 2, 2, sb, eb, 0, ins)
+        add(2, 2, 2, 2, 0, 2, 0, 0)
+        add(2, 2, 2, 2, 1, 2, 2, 2)
+        return out
+    for ka, kb in [(2, 1), (3, 1), (2, 2)]:
+        for r in (1, 2):
+            for lb in (2, 3):
                 for sb in (0, 1):
                     for eb in (lb - 1, lb):
                         if eb - sb < 1:
                             continue
-                        for ps in psets:
+                        for ps in (0, 2):
                             for ins in (0, 1, 2):
-                                out.append(dict(name='ka%d_kb%d_rows%d_lb%d_sb%d_eb%d_p%d_in%d' % (ka, kb, r, lb, sb, eb, ps, ins),
-                                                defs=dict(KV_KA=ka, KV_KB=kb, KV_ROWS=r, KV_LB=lb, KV_SB=sb, KV_EB=eb, KV_PSET=ps, KV_IN=ins)))
+                                add(ka, kb, r, lb, sb, eb, ps, ins)
     return out
 Q(id='C07.profiles.fwd_groups', props=['C07', 'C08'], cls='B', harness='c07_profiles.c', entry='h_c07_profiles', shapes=_profile_shapes,
   mode='wrap', unwind=8, timeout=900, funcs=['aln_seqprofile_foward', 'aln_profileprofile_foward', 'make_profile_n', 'update_n', 'set_gap_penalties_n'],
